@@ -14,10 +14,11 @@ Variable nt : nat.
 Variable cop : crs -> crs -> crs -> crs.
 Variable junk : nat -> vec.
 Variable junkf : nat -> flags.
+Variable prep : crs -> option crs.
 
-Local Notation build_full := (build_full ce dc nt cop junk junkf).
-Local Notation full_transfers := (full_transfers ce nt cop junk junkf).
-Local Notation full_chain := (full_chain nt junk junkf).
+Local Notation build_full := (build_full ce dc nt cop junk junkf prep).
+Local Notation full_transfers := (full_transfers ce nt cop junk junkf prep).
+Local Notation full_chain := (full_chain nt junk junkf prep).
 
 (* the key fact: build_full = build with the model's own transfer operators;
    max_levels = lev + k + 1 where lev levels are already pushed and k more step_downs are allowed *)
@@ -36,8 +37,9 @@ Proof.
       by (symmetry; apply Nat.leb_gt; lia).
     destruct (coarsen_step nt pol A (junk lev) (junkf lev)) as [| | |P R Ac pol'];
       try discriminate; try (injection H as <-; reflexivity).
+    destruct (prep P) as [Pc|]; [|discriminate]. destruct (prep R) as [Rc|]; [|discriminate].
     cbv zeta in H.
-    destruct (build_full k pol' (sort_rows (cop A (sort_rows P) (sort_rows R))) (Datatypes.S lev)) as [tl| |] eqn:E;
+    destruct (build_full k pol' (sort_rows (cop A (sort_rows Pc) (sort_rows Rc))) (Datatypes.S lev)) as [tl| |] eqn:E;
       try discriminate.
     injection H as <-. f_equal.
     rewrite (IH _ _ _ _ E). f_equal. lia.
@@ -55,11 +57,12 @@ Proof.
     { injection H as <-. destruct dc; reflexivity. }
     destruct (coarsen_step nt pol A (junk lev) (junkf lev)) as [| | |P R Ac pol'] eqn:Es;
       try discriminate; try (injection H as <-; reflexivity).
+    destruct (prep P) as [Pc|] eqn:EP; [|discriminate]. destruct (prep R) as [Rc|] eqn:ER; [|discriminate].
     cbv zeta in H.
-    destruct (build_full k pol' (sort_rows (cop A (sort_rows P) (sort_rows R))) (Datatypes.S lev)) as [tl| |] eqn:E;
+    destruct (build_full k pol' (sort_rows (cop A (sort_rows Pc) (sort_rows Rc))) (Datatypes.S lev)) as [tl| |] eqn:E;
       try discriminate.
     injection H as <-. cbn [AmgFull.full_chain].
-    exists P, R, Ac, pol'. rewrite Es. repeat split. exact (IH _ _ _ _ E).
+    exists P, R, Ac, pol', Pc, Rc. repeat split; try assumption. exact (IH _ _ _ _ E).
 Qed.
 
 (* the first matrix of the result is the input *)
@@ -115,11 +118,12 @@ Variable dc : bool.
 Variable ml nt : nat.
 Variable junk : nat -> vec.
 Variable junkf : nat -> flags.
+Variable prep : crs -> option crs.
 
 (* max_levels = 0 behaves like 1: the first level is pushed before the test *)
 Definition eff_levels : nat := Datatypes.S (ml - 1).
 Definition init_transfers (pol : @policy S) (M : crs) : list (option (crs * crs)) :=
-  full_transfers ce nt (policy_cop pol) junk junkf (ml - 1) pol (sort_rows M) 0.
+  full_transfers ce nt (policy_cop pol) junk junkf prep (ml - 1) pol (sort_rows M) 0.
 
 Lemma policy_cop_shape (pol : @policy S) : coarse_shape (policy_cop pol).
 Proof.
@@ -127,37 +131,37 @@ Proof.
 Qed.
 
 Theorem amg_init_full_is_amg_init pol M ls :
-  amg_init_full ce dc ml nt junk junkf pol M = FullOk ls ->
+  amg_init_full ce dc ml nt junk junkf prep pol M = FullOk ls ->
   ls = amg_init ce dc eff_levels (policy_cop pol) (init_transfers pol M) M.
-Proof. intro H. exact (build_full_is_build ce dc nt _ junk junkf _ _ _ _ _ H). Qed.
+Proof. intro H. exact (build_full_is_build ce dc nt _ junk junkf prep _ _ _ _ _ H). Qed.
 
 Theorem amg_init_full_chain pol M ls :
-  amg_init_full ce dc ml nt junk junkf pol M = FullOk ls ->
-  chain (policy_cop pol) ls /\ head_A ls (sort_rows M) /\ full_chain nt junk junkf pol 0 ls.
+  amg_init_full ce dc ml nt junk junkf prep pol M = FullOk ls ->
+  chain (policy_cop pol) ls /\ head_A ls (sort_rows M) /\ full_chain nt junk junkf prep pol 0 ls.
 Proof.
-  intro H. destruct (build_full_galerkin_chain ce dc nt _ junk junkf _ _ _ _ _ H) as [H1 H2].
-  repeat split; try assumption. exact (build_full_chain ce dc nt _ junk junkf _ _ _ _ _ H).
+  intro H. destruct (build_full_galerkin_chain ce dc nt _ junk junkf prep _ _ _ _ _ H) as [H1 H2].
+  repeat split; try assumption. exact (build_full_chain ce dc nt _ junk junkf prep _ _ _ _ _ H).
 Qed.
 
 Theorem amg_init_full_levels pol M ls :
-  amg_init_full ce dc ml nt junk junkf pol M = FullOk ls -> length ls <= Nat.max ml 1.
+  amg_init_full ce dc ml nt junk junkf prep pol M = FullOk ls -> length ls <= Nat.max ml 1.
 Proof.
-  intro H. pose proof (build_full_length ce dc nt _ junk junkf _ _ _ _ _ H). lia.
+  intro H. pose proof (build_full_length ce dc nt _ junk junkf prep _ _ _ _ _ H). lia.
 Qed.
 
 Theorem amg_init_full_last_rule pol M ls d :
-  amg_init_full ce dc ml nt junk junkf pol M = FullOk ls ->
+  amg_init_full ce dc ml nt junk junkf prep pol M = FullOk ls ->
   match last ls d with
   | LSolve A' => nrows A' <= ce /\ dc = true
   | LLast A' => nrows A' <= ce -> dc = false
   | LMid _ _ _ => False
   end.
-Proof. intro H. exact (build_full_last_rule ce dc nt _ junk junkf _ _ _ _ _ d H). Qed.
+Proof. intro H. exact (build_full_last_rule ce dc nt _ junk junkf prep _ _ _ _ _ d H). Qed.
 
 (* rebuild(M') = the hierarchy the constructor would assemble for M' from the transfer operators
    the coarsening chose for M *)
 Theorem amg_init_full_rebuild_fresh pol M M' ls :
-  amg_init_full ce dc ml nt junk junkf pol M = FullOk ls -> nrows M' = nrows M ->
+  amg_init_full ce dc ml nt junk junkf prep pol M = FullOk ls -> nrows M' = nrows M ->
   amg_rebuild (policy_cop pol) ls M' =
   amg_init ce dc eff_levels (policy_cop pol) (init_transfers pol M) M'.
 Proof.
@@ -166,7 +170,7 @@ Proof.
 Qed.
 
 Theorem amg_init_full_rebuild_stored pol M M' ls :
-  amg_init_full ce dc ml nt junk junkf pol M = FullOk ls -> nrows M' = nrows M ->
+  amg_init_full ce dc ml nt junk junkf prep pol M = FullOk ls -> nrows M' = nrows M ->
   amg_rebuild (policy_cop pol) ls M' =
   amg_init ce dc eff_levels (policy_cop pol) (transfers_of ls) M'.
 Proof.
@@ -175,7 +179,7 @@ Proof.
 Qed.
 
 Theorem amg_init_full_rebuild_restore pol M M' ls :
-  amg_init_full ce dc ml nt junk junkf pol M = FullOk ls -> nrows M' = nrows M ->
+  amg_init_full ce dc ml nt junk junkf prep pol M = FullOk ls -> nrows M' = nrows M ->
   amg_rebuild (policy_cop pol) (amg_rebuild (policy_cop pol) ls M') M = ls.
 Proof.
   intros H Hn. rewrite (amg_init_full_is_amg_init pol M ls H).
@@ -183,7 +187,7 @@ Proof.
 Qed.
 
 Theorem amg_init_full_rebuild_history pol M (Ms : list crs) M' ls :
-  amg_init_full ce dc ml nt junk junkf pol M = FullOk ls ->
+  amg_init_full ce dc ml nt junk junkf prep pol M = FullOk ls ->
   Forall (fun X => nrows X = nrows M) Ms -> nrows M' = nrows M ->
   amg_rebuild (policy_cop pol) (fold_left (amg_rebuild (policy_cop pol)) Ms ls) M' =
   amg_init ce dc eff_levels (policy_cop pol) (init_transfers pol M) M'.
@@ -232,23 +236,35 @@ Proof.
   cbn [with_coarse] in H; injection H as _ _ _ <-; split; reflexivity.
 Qed.
 
-(* every level with transfer operators of a hierarchy built inside the model has R = transpose P
-   up to the row sorting done by step_down *)
-Theorem full_chain_adjoint nt junk junkf : forall (ls : list (@ldesc S)) (pol : @policy S) lev,
-  policy_adjoint pol = true -> full_chain nt junk junkf pol lev ls ->
+(* every level with transfer operators of a hierarchy built inside the model carries the wrapped,
+   row-sorted images of some P0 and of transpose P0 *)
+Theorem full_chain_adjoint nt junk junkf prep : forall (ls : list (@ldesc S)) (pol : @policy S) lev,
+  policy_adjoint pol = true -> full_chain nt junk junkf prep pol lev ls ->
   forall n A P R, nth_error ls n = Some (LMid A P R) ->
-  exists P0, P = sort_rows P0 /\ R = sort_rows (transpose P0).
+  exists P0 Pc Rc, prep P0 = Some Pc /\ prep (transpose P0) = Some Rc /\
+                   P = sort_rows Pc /\ R = sort_rows Rc.
 Proof.
   induction ls as [|l tl IH]; intros pol lev Ha Hc n A P R Hn; [destruct n; discriminate|].
   destruct l as [A0 P0' R0'|A0|A0].
-  - cbn [full_chain] in Hc. destruct Hc as (P0 & R0 & Ac & pol' & Es & EP & ER & Hc').
+  - cbn [full_chain] in Hc. destruct Hc as (P0 & R0 & Ac & pol' & Pc & Rc & Es & EPc & ERc & EP & ER & Hc').
     destruct n as [|n].
-    + injection Hn as <- <- <-. exists P0. split; [exact EP|].
-      rewrite ER. f_equal. exact (coarsen_step_transpose nt pol _ _ _ _ _ _ _ Ha Es).
+    + injection Hn as <- <- <-. exists P0, Pc, Rc.
+      rewrite <- (coarsen_step_transpose nt pol _ _ _ _ _ _ _ Ha Es). repeat split; assumption.
     + apply (IH pol' (Datatypes.S lev)) with (n := n) (A := A); try assumption.
       rewrite (proj1 (coarsen_step_next nt pol _ _ _ _ _ _ _ Es)). exact Ha.
   - cbn [full_chain] in Hc. subst tl. destruct n as [|[|n]]; discriminate.
   - cbn [full_chain] in Hc. subst tl. destruct n as [|[|n]]; discriminate.
+Qed.
+
+(* a coarsening class used directly (prep = Some): R = transpose P up to the row sorting of step_down *)
+Corollary full_chain_adjoint_direct nt junk junkf : forall (ls : list (@ldesc S)) (pol : @policy S) lev,
+  policy_adjoint pol = true -> full_chain nt junk junkf (@Some crs) pol lev ls ->
+  forall n A P R, nth_error ls n = Some (LMid A P R) ->
+  exists P0, P = sort_rows P0 /\ R = sort_rows (transpose P0).
+Proof.
+  intros ls pol lev Ha Hc n A P R Hn.
+  destruct (full_chain_adjoint nt junk junkf _ ls pol lev Ha Hc n A P R Hn) as (P0 & Pc & Rc & E1 & E2 & E3 & E4).
+  injection E1 as <-. injection E2 as <-. exists P0. split; assumption.
 Qed.
 
 End Adjoint.
@@ -260,8 +276,8 @@ Context {S : Scalar}.
 Local Notation crs := (crs S).
 Hypothesis Srt : Sring S.
 
-Theorem amg_init_full_dense ce dc ml nt junk junkf (pol : @policy S) (M : crs) ls :
-  amg_init_full ce dc ml nt junk junkf pol M = FullOk ls ->
+Theorem amg_init_full_dense ce dc ml nt junk junkf prep (pol : @policy S) (M : crs) ls :
+  amg_init_full ce dc ml nt junk junkf prep pol M = FullOk ls ->
   forall n A P R next i j,
   nth_error ls n = Some (LMid A P R) -> nth_error ls (Datatypes.S n) = Some next ->
   wf A = true -> wf R = true ->
@@ -272,7 +288,7 @@ Theorem amg_init_full_dense ce dc ml nt junk junkf (pol : @policy S) (M : crs) l
   end.
 Proof.
   intros H n A P R next i j H1 H2 HA HR.
-  destruct (amg_init_full_chain ce dc ml nt junk junkf pol M ls H) as (Hc & _ & _).
+  destruct (amg_init_full_chain ce dc ml nt junk junkf prep pol M ls H) as (Hc & _ & _).
   unfold policy_cop in Hc. destruct (policy_scale pol) as [s|]; cbn [coarse_op_of] in Hc.
   - exact (chain_scaled_galerkin_dense Srt s ls Hc n A P R next i j H1 H2 HA HR).
   - exact (chain_galerkin_dense Srt ls Hc n A P R next i j H1 H2 HA HR).
